@@ -68,11 +68,22 @@ def run(check):
         versions.append(same_length_variant(rng, versions[0]))      # equal output size, different bytes
         if multi and rng.random() < 0.5 and len(crates) > 1:
             versions.append({c: t for c, t in list(versions[0].items())[:-1]})     # a crate disappears
+        # v0 plus one item that is emitted last (a unit enum sorting after everything) resp. first (an alias sorting before
+        # everything): going back to v0 makes the new output a strict prefix resp. suffix of what is on disk
+        c0 = sorted(versions[0])[-1]
+        tail = dict(versions[0]); tail[c0] = versions[0][c0] + "\n#[typeshare]\npub enum ZzzTail {\n    Aa,\n    Bb,\n}\n"
+        head = dict(versions[0]); head[c0] = versions[0][c0] + "\n#[typeshare]\npub type AaaHead = u8;\n"
+        extra = []
+        if rng.random() < 0.7:
+            versions.append(tail); extra += [len(versions) - 1, 0]
+        if rng.random() < 0.4:
+            versions.append(head); extra += [len(versions) - 1, 0]
         samelen = [i for i, v in enumerate(versions) if i and v != versions[0] and
                    all(len(v.get(c, "")) == len(t) for c, t in versions[0].items())]
         hist = [0] + [rng.randrange(len(versions)) for _ in range(rng.randint(1, maxlen - 1))]
         if samelen:
             hist.insert(1, samelen[0])        # v0 -> its equal-length twin -> …
+        hist += extra                         # … -> v0 + last / first item -> v0
         if rng.random() < 0.7:
             hist.insert(rng.randint(1, len(hist)), hist[rng.randrange(len(hist))])     # an exact repetition
         check.saw((lang, multi, tuple(hist), json.dumps(versions, sort_keys=True)), nontrivial=len(set(hist)) < len(hist))
